@@ -3,7 +3,7 @@
 # (/verif/selftest/<name>.diff, first line "# props: C11 C05", optional second line "# expect: benign") to a
 # scratch worktree of /repo's HEAD and runs the named checks against it (govc -repo <worktree> -out <scratch>);
 # /repo and /verif/evidence are not touched. Deductive part only unless BOUNDED=1.
-# ONLY=<substring> restricts the corpus. "MISSED" = no check raised a violation; for "expect: benign" mutations the expected outcome is QUIET.
+# ONLY=<regex> restricts the corpus. "MISSED" = no check raised a violation; for "expect: benign" mutations the expected outcome is QUIET.
 cd /verif
 export GOFLAGS=-mod=mod GOPROXY=off GOSUMDB=off GOTOOLCHAIN=local
 extra="-noreplay -budget 5"; [ "${BOUNDED:-0}" = 1 ] || extra="$extra -nobounded"
@@ -28,7 +28,7 @@ run() { # name patch expect props...
     if [ -n "$caught" ]; then echo "CAUGHT $name by$caught"; else echo "MISSED $name (checked: $*)"; fi
   fi
 }
-for d in seeded/C*/; do n=$(basename $d); [ -n "${ONLY:-}" ] && [[ "seed-$n" != *$ONLY* ]] && continue; id=${n%%-*}; [ -f $d/patch.diff ] && run seed-$n /verif/$d/patch.diff caught $id; done
-for f in selftest/*.diff; do [ -f "$f" ] || continue; [ -n "${ONLY:-}" ] && [[ "$f" != *$ONLY* ]] && continue
+for d in seeded/C*/; do n=$(basename $d); [ -n "${ONLY:-}" ] && [[ ! "seed-$n" =~ $ONLY ]] && continue; id=${n%%-*}; [ -f $d/patch.diff ] && run seed-$n /verif/$d/patch.diff caught $id; done
+for f in selftest/*.diff; do [ -f "$f" ] || continue; [ -n "${ONLY:-}" ] && [[ ! "$f" =~ $ONLY ]] && continue
   props=$(sed -n 's/^# props: //p' "$f" | head -1); expect=$(sed -n 's/^# expect: //p' "$f" | head -1)
   run $(basename $f .diff) /verif/$f "${expect:-caught}" $props; done
